@@ -235,6 +235,13 @@ package common
 //@   ensures (err == nil) == sig_valid(*p)
 //@   ensures err == nil ==> sig != nil && sg_bytes(sig) == *p
 
+// a public key held by value (operations that carry their own key): assumed like the cached form
+//@ func (p *BLSPubkey) Pubkey() (pub, err)
+//@   trusted
+//@   requires p != nil
+//@   ensures (err == nil) == pub_valid(*p)
+//@   ensures err == nil ==> pub != nil && pt_bytes(pub) == *p
+
 // The proposer signature check of an envelope under a given fork version:
 // proposer matches, the envelope's fork digest is that of the version, key and
 // signature deserialize, and the signature is over the whole 32-byte signing
@@ -823,6 +830,121 @@ package common
 //@   trusted
 //@   assigns ghost(n_val_write), ghost(n_set_wd), ghost(set_wd_v), ghost(set_wd_val)
 //@   ensures n_val_write == old(n_val_write) + 1 && n_set_wd == old(n_set_wd) + 1 && set_wd_v == v && set_wd_val == ep
+// reward / penalty vectors (C02): NewDeltas hands back two fresh zeroed lists of the asked length (inlined at its callers)
+//@ func NewDeltas(validatorCount) r
+//@   property C02
+//@   opt inline=always
+//@   requires validatorCount < 4611686018427387904
+//@   ensures r != nil && len(r.Rewards) == validatorCount && len(r.Penalties) == validatorCount
+//@   ensures forall k :: {r.Rewards[k]} 0 <= k && k < validatorCount ==> r.Rewards[k] == 0
+//@   ensures forall k :: {r.Penalties[k]} 0 <= k && k < validatorCount ==> r.Penalties[k] == 0
+
+// Deltas.Add: element-wise (wrapping) sums, over the receiver's length
+//@ sort DeltasP = *Deltas
+//@ func (deltas *Deltas) Add(other)
+//@   property C02
+//@   requires deltas != nil && other != nil && deltas != other && len(other.Rewards) >= len(deltas.Rewards) && len(other.Penalties) >= len(deltas.Penalties)
+//@   assigns deltas.Rewards, deltas.Penalties
+//@   ensures len(deltas.Rewards) == old(len(deltas.Rewards)) && len(deltas.Penalties) == old(len(deltas.Penalties))
+//@   ensures rewards: forall k :: {deltas.Rewards[k]} 0 <= k && k < len(deltas.Rewards) ==> deltas.Rewards[k] == (old(deltas.Rewards[k]) + other.Rewards[k]) % 18446744073709551616
+//@   ensures penalties: forall k :: {deltas.Penalties[k]} 0 <= k && k < len(deltas.Penalties) ==> deltas.Penalties[k] == (old(deltas.Penalties[k]) + other.Penalties[k]) % 18446744073709551616
+//@   loop 1
+//@     invariant 0 <= i && i <= len(deltas.Rewards) && len(deltas.Rewards) == old(len(deltas.Rewards)) && len(deltas.Penalties) == old(len(deltas.Penalties))
+//@     invariant forall k :: {deltas.Rewards[k]} 0 <= k && k < i ==> deltas.Rewards[k] == (old(deltas.Rewards[k]) + other.Rewards[k]) % 18446744073709551616
+//@     invariant forall k :: {deltas.Rewards[k]} i <= k && k < len(deltas.Rewards) ==> deltas.Rewards[k] == old(deltas.Rewards[k])
+//@     invariant forall k :: {deltas.Penalties[k]} 0 <= k && k < len(deltas.Penalties) ==> deltas.Penalties[k] == old(deltas.Penalties[k])
+//@   loop 2
+//@     invariant 0 <= i && i <= len(deltas.Penalties) && len(deltas.Rewards) == old(len(deltas.Rewards)) && len(deltas.Penalties) == old(len(deltas.Penalties))
+//@     invariant forall k :: {deltas.Rewards[k]} 0 <= k && k < len(deltas.Rewards) ==> deltas.Rewards[k] == (old(deltas.Rewards[k]) + other.Rewards[k]) % 18446744073709551616
+//@     invariant forall k :: {deltas.Penalties[k]} 0 <= k && k < i ==> deltas.Penalties[k] == (old(deltas.Penalties[k]) + other.Penalties[k]) % 18446744073709551616
+//@     invariant forall k :: {deltas.Penalties[k]} i <= k && k < len(deltas.Penalties) ==> deltas.Penalties[k] == old(deltas.Penalties[k])
+
+// balances (assumed view model; versioned by the count of balance writes) and their iterator
+//@ sort BalI = BalancesRegistry
+//@ ufun st_bals_err(StateI) bool
+//@ ufun st_bals(StateI) BalI
+//@ ghost n_set_bal int
+//@ ufun bal_err(int, BalI, int) bool
+//@ ufun bal_at(int, BalI, int) int
+//@ ufun bal_len(BalI) int
+// (list limit VALIDATOR_REGISTRY_LIMIT = 2^40)
+//@ axiom bal_len_nonneg [manual]: forall b BalI :: {bal_len(b)} bal_len(b) >= 0 && bal_len(b) <= 1099511627776
+//@ ghost n_biter int
+//@ ghost biter_pos int
+//@ ghost biter_reg BalI
+//@ func (s BeaconState) Balances() (r, err)
+//@   trusted
+//@   opt noalloc
+//@   ensures (err != nil) == st_bals_err(s)
+//@   ensures err == nil ==> r == st_bals(s) && r != nil
+//@ func (b BalancesRegistry) GetBalance(index) (r, err)
+//@   trusted
+//@   opt noalloc
+//@   ensures (err != nil) == bal_err(n_set_bal, b, index)
+//@   ensures err == nil ==> r == bal_at(n_set_bal, b, index)
+//@ func (b BalancesRegistry) Iter() next
+//@   trusted
+//@   opt returns_contract=balanceIterNext
+//@   assigns ghost(n_biter), ghost(biter_pos), ghost(biter_reg)
+//@   ensures n_biter == old(n_biter) + 1 && fnid(next) == n_biter && biter_pos == 0 && biter_reg == b
+//@ func balanceIterNext(self) (bal, ok, err)
+//@   trusted
+//@   requires live: self == n_biter
+//@   assigns ghost(biter_pos)
+//@   ensures err == nil ==> ok == (old(biter_pos) < bal_len(biter_reg))
+//@   ensures err == nil && ok ==> bal == bal_at(n_set_bal, biter_reg, old(biter_pos)) && biter_pos == old(biter_pos) + 1
+//@   ensures !(err == nil && ok) ==> biter_pos == old(biter_pos)
+//@ ufun bal_len_err(BalI) bool
+//@ func (b BalancesRegistry) Length() (n, err)
+//@   trusted
+//@   opt noalloc
+//@   ensures (err != nil) == bal_len_err(b)
+//@   ensures err == nil ==> n == bal_len(b)
+// ApplyDeltas: balance i becomes increase_balance(rewards[i]) then decrease_balance(penalties[i]) (clipped at 0); the
+// reward and penalty vectors must have the balances' length
+//@ func ApplyDeltas(state, deltas) (out, err)
+//@   property C02
+//@   use bal_len_nonneg
+//@   requires state != nil && deltas != nil
+//@   assigns ghost(n_biter), ghost(biter_pos), ghost(biter_reg)
+//@   ensures lengths: err == nil ==> !st_bals_err(state) && len(deltas.Rewards) == bal_len(st_bals(state)) && len(deltas.Penalties) == bal_len(st_bals(state)) && len(out) == bal_len(st_bals(state))
+//@   ensures applied: err == nil ==> (forall k :: {out[k]} 0 <= k && k < len(out) ==> out[k] == (let b := (bal_at(n_set_bal, st_bals(state), k) + deltas.Rewards[k]) % 18446744073709551616 in ite(b >= deltas.Penalties[k], b - deltas.Penalties[k], 0)))
+//@   ensures n_set_bal == old(n_set_bal)
+//@   loop 1
+//@     invariant balances == st_bals(state) && biter_reg == balances && fnid(balIterNext) == n_biter && i == biter_pos && 0 <= i && i <= bal_len(balances) && len(balancesOut) == i && n_set_bal == old(n_set_bal) && length == bal_len(balances) && len(deltas.Rewards) == length && len(deltas.Penalties) == length
+//@     invariant forall k :: {balancesOut[k]} 0 <= k && k < i ==> balancesOut[k] == (let b := (bal_at(n_set_bal, st_bals(state), k) + deltas.Rewards[k]) % 18446744073709551616 in ite(b >= deltas.Penalties[k], b - deltas.Penalties[k], 0))
+
+// effective-balance writes: point updates of a versioned view (the unversioned v_eb is the snapshot the
+// sampling contracts read)
+//@ ghost n_set_eb int
+//@ ufun v_eb_now(int, ValI) int
+//@ func (v Validator) SetEffectiveBalance(b) err
+//@   trusted
+//@   assigns ghost(n_set_eb)
+//@   ensures n_set_eb == old(n_set_eb) + 1
+//@   ensures err == nil ==> v_eb_now(n_set_eb, v) == b
+//@   ensures err != nil ==> v_eb_now(n_set_eb, v) == v_eb_now(old(n_set_eb), v)
+//@   ensures forall w ValI :: {v_eb_now(n_set_eb, w)} w != v ==> v_eb_now(n_set_eb, w) == v_eb_now(old(n_set_eb), w)
+// registry length and withdrawal-credential writes (bls-to-execution changes, C03/C01)
+//@ ufun reg_len_err(RegI) bool
+//@ func (r ValidatorRegistry) ValidatorCount() (n, err)
+//@   trusted
+//@   opt noalloc
+//@   ensures (err != nil) == reg_len_err(r)
+//@   ensures err == nil ==> n == reg_len(r)
+//@ sort BLSChangeT = BLSToExecutionChange
+//@ ufun blschg_root(BLSChangeT) RootT
+//@ func (s *BLSToExecutionChange) HashTreeRoot(hFn) r
+//@   trusted
+//@   opt noalloc
+//@   ensures r == blschg_root(*s)
+//@ ghost n_set_wcred int
+//@ ghost set_wcred_v ValI
+//@ ghost set_wcred_val Root32
+//@ func (v Validator) SetWithdrawalCredentials(out) err
+//@   trusted
+//@   assigns ghost(n_set_wcred), ghost(set_wcred_v), ghost(set_wcred_val)
+//@   ensures n_set_wcred == old(n_set_wcred) + 1 && set_wcred_v == v && set_wcred_val == out
 // the exit queue (initiate_validator_exit): the latest exit epoch among validators that have one, or the
 // activation-exit epoch of the current epoch when that is later; exq_count counts the exits at an epoch
 //@ defrec exq_max(ver int, reg RegI, i int, base int) int = ite(i <= 0, base, ite(v_exit(ver, reg_val(reg, i - 1)) != FAR_FUTURE_EPOCH && v_exit(ver, reg_val(reg, i - 1)) > exq_max(ver, reg, i - 1, base), v_exit(ver, reg_val(reg, i - 1)), exq_max(ver, reg, i - 1, base)))
@@ -1089,6 +1211,7 @@ package common
 //@     invariant ctx_t == old(ctx_t) ==> currentSlot < slot
 //@   ensures c03_forward: err == nil ==> !st_slot_err(state) && st_slot(state) < slot
 //@   assigns ghost(n_set_score)
+//@   assigns ghost(n_biter), ghost(biter_pos), ghost(biter_reg), ghost(n_set_eb)
 //@   assigns ghost(n_eth1_reset), ghost(n_slash_reset), ghost(last_slash_reset), ghost(n_set_mix), ghost(last_set_mix_epoch), ghost(last_set_mix), ghost(n_hist_update)
 //@   assigns ghost(n_set_lhdr), ghost(set_lhdr)
 //@   assigns ghost(n_set_prevjust), ghost(set_prevjust), ghost(n_set_curjust), ghost(set_curjust), ghost(n_set_fin), ghost(set_fin), ghost(n_set_jbits), ghost(set_jbits)
@@ -1110,6 +1233,8 @@ package common
 //@     invariant ctx_t > old(ctx_t) ==> !ctx_cancelled(ctx, old(ctx_t))
 //@   assigns ghost(n_eng_notify), ghost(n_set_exec_header)
 //@   assigns ghost(n_set_score)
+//@   assigns ghost(n_biter), ghost(biter_pos), ghost(biter_reg), ghost(n_set_eb)
+//@   assigns ghost(n_set_wcred), ghost(set_wcred_v), ghost(set_wcred_val)
 //@   assigns ghost(n_eth1_reset), ghost(n_slash_reset), ghost(last_slash_reset), ghost(n_set_mix), ghost(last_set_mix_epoch), ghost(last_set_mix), ghost(n_hist_update)
 //@   assigns ghost(n_set_mix), ghost(last_set_mix_epoch), ghost(last_set_mix)
 //@   assigns ghost(n_set_lhdr), ghost(set_lhdr)
@@ -1134,6 +1259,7 @@ package common
 //@   ensures c03_slot: err == nil ==> !st_slot_err(state) && st_slot(state) == old(benv.Slot)
 //@   ensures c03_reads: validateResult && err == nil ==> !st_forkdata_err(state) && !st_gvr_err(state) && !epc_proposer_err(epc, old(benv.Slot))
 //@   ensures c03_signature: old(benv != nil && epc != nil && epc.ValidatorPubkeyCache != nil && (forall r PcPtr :: {pctrig(r)} pctrig(r) && alloc(r) ==> pc_local(r.pub2idx, r.idx2pub, r.trustedParentCount) && pc_chain(r.parent, r, r.trustedParentCount, r.parent.trustedParentCount, len(r.parent.idx2pub))) && (forall r PcPtr :: {held(r.rwLock)} held(r.rwLock) == 0)) && validateResult && err == nil ==> (exists pk Pub48T :: block_sig_ok(old(benv.ProposerIndex), epc_proposer(epc, old(benv.Slot)), old(benv.ForkDigest), old(benv.BlockRoot), old(benv.Signature), pk, DOMAIN_BEACON_PROPOSER, st_forkdata(state).CurrentVersion, st_gvr(state)))
+//@   assigns ghost(n_set_wcred), ghost(set_wcred_v), ghost(set_wcred_val)
 //@   assigns ghost(n_set_mix), ghost(last_set_mix_epoch), ghost(last_set_mix)
 //@   assigns ghost(n_set_lhdr), ghost(set_lhdr)
 //@   assigns ghost(n_viter), ghost(viter_pos), ghost(viter_reg), ghost(n_val_write), ghost(n_set_exit), ghost(set_exit_v), ghost(set_exit_val), ghost(n_set_wd), ghost(set_wd_v), ghost(set_wd_val)
